@@ -9,7 +9,7 @@ git -C /repo worktree add -q --detach $W HEAD || exit 2
 [ -n "$PATCH" ] && git -C $W apply $PATCH
 mkdir -p $H $O; cp -r /verif/harness/. $H/; sed -i "s#=> /repo#=> $W#" $H/go.mod; cp $W/go.sum $H/go.sum 2>/dev/null
 ( cd $H && go build -tags verif -o $O/yaeh . ) || { echo BUILD-FAILED; }
-( cd /verif && $O/yaeh $P $O 1 $TIER ) | tail -3
+( cd /verif && $O/yaeh $P $O ${DEV_SEED:-1} $TIER ) | tail -3
 python3 - $O <<'PY'
 import sys,subprocess,json
 o=sys.argv[1]
